@@ -87,6 +87,12 @@ type (
 		Val  SExpr
 		Body SExpr
 	}
+	// x.(T): the value of dynamic type T held by interface value x (unspecified if x holds another type)
+	SAssert struct {
+		SPos
+		X    SExpr
+		Type *SType
+	}
 )
 
 type SField struct {
@@ -142,12 +148,21 @@ type Clause struct {
 type LoopSpec struct {
 	Ordinal    int
 	Invariants []*Clause
+	Visits     []*Clause // iterator call sites: facts established by every successful visit (old = state at visit start, $m = element)
 	Unroll     bool
 }
 
+type FreshSpec struct {
+	Name string
+	When SExpr // nil = unconditionally fresh
+	Tags []string
+}
+
 type AssignLoc struct {
-	Expr SExpr // location expression (x.f, *p, x.f[*]) ; nil for "everything"
-	All  bool
+	Expr  SExpr // location expression (x.f, *p) ; nil for "everything"
+	All   bool
+	Owner *SType // "all pkg.T.f": field f of every object of type T
+	Field string
 }
 
 type FuncSpec struct {
@@ -161,6 +176,7 @@ type FuncSpec struct {
 	Requires   []*Clause
 	Ensures    []*Clause
 	Panics     []*Clause // "panics unless e": obligation at every call site, attributed to safety
+	Exits      []*Clause // checked at every return site of the body (may mention locals); never assumed by callers
 	Assigns    []AssignLoc
 	HasAssigns bool
 	Safety     []string // property tags that own the zero-annotation safety obligations of this body
@@ -171,7 +187,8 @@ type FuncSpec struct {
 	Frame      []string // tags owning frame obligations
 	Pure       bool     // for externals: result is a function of the arguments (no heap dependence)
 	External   bool
-	Fresh      []string // names of results that are freshly allocated
+	Fresh      []FreshSpec // results that are freshly allocated (optionally only when a condition holds)
+	Iterator   bool        // iteration schema (etreeutils.NSFindIterate)
 	Notes      []string
 }
 
@@ -365,7 +382,7 @@ func (l *lexer) here() SPos { return SPos{l.file, l.peek().line} }
 
 var clauseKeywords = map[string]bool{"requires": true, "ensures": true, "assigns": true, "safety": true, "inline": true,
 	"trusted": true, "loop": true, "iter": true, "invariant": true, "panics": true, "frame": true, "pure": true,
-	"ghost": true, "func": true, "axiom": true, "unroll": true, "fresh": true, "note": true, "external": true}
+	"ghost": true, "func": true, "axiom": true, "unroll": true, "fresh": true, "note": true, "external": true, "visit": true, "iterator": true, "exit": true}
 
 type eparser struct {
 	l *lexer
@@ -490,6 +507,18 @@ func (p *eparser) parsePostfix() (SExpr, error) {
 		switch t.val {
 		case ".":
 			p.l.next()
+			if p.l.isOp("(") {
+				p.l.next()
+				ty, err := p.parseType()
+				if err != nil {
+					return nil, err
+				}
+				if err := p.l.expect(")"); err != nil {
+					return nil, err
+				}
+				x = &SAssert{SPos{p.l.file, t.line}, x, ty}
+				continue
+			}
 			n := p.l.next()
 			if n.kind != "id" {
 				return nil, p.errf("expected field name")
@@ -1003,7 +1032,7 @@ func parseSpecLines(path string, lines []string, lineNos []int) (*SpecFile, erro
 			}
 			sf.Funcs = append(sf.Funcs, fs)
 			cur, curLoop = fs, nil
-		case "requires", "ensures", "invariant", "panics":
+		case "requires", "ensures", "invariant", "panics", "visit", "exit":
 			lx.next()
 			if cur == nil {
 				return nil, p.errf("clause outside a func contract")
@@ -1025,11 +1054,18 @@ func parseSpecLines(path string, lines []string, lineNos []int) (*SpecFile, erro
 				cur.Ensures = append(cur.Ensures, c)
 			case "panics":
 				cur.Panics = append(cur.Panics, c)
+			case "exit":
+				cur.Exits = append(cur.Exits, c)
 			case "invariant":
 				if curLoop == nil {
 					return nil, p.errf("invariant outside loop/iter")
 				}
 				curLoop.Invariants = append(curLoop.Invariants, c)
+			case "visit":
+				if curLoop == nil {
+					return nil, p.errf("visit outside iter")
+				}
+				curLoop.Visits = append(curLoop.Visits, c)
 			}
 		case "assigns":
 			lx.next()
@@ -1044,11 +1080,27 @@ func parseSpecLines(path string, lines []string, lineNos []int) (*SpecFile, erro
 				cur.Assigns = append(cur.Assigns, AssignLoc{All: true})
 			} else {
 				for {
-					e, err := p.parseExpr(0)
-					if err != nil {
-						return nil, err
+					if lx.isID("all") {
+						lx.next()
+						a := lx.next().val
+						lx.expect(".")
+						b := lx.next().val
+						al := AssignLoc{}
+						if lx.accept(".") {
+							al.Owner = &SType{Kind: "name", Pkg: a, Name: b}
+							al.Field = lx.next().val
+						} else {
+							al.Owner = &SType{Kind: "name", Name: a}
+							al.Field = b
+						}
+						cur.Assigns = append(cur.Assigns, al)
+					} else {
+						e, err := p.parseExpr(0)
+						if err != nil {
+							return nil, err
+						}
+						cur.Assigns = append(cur.Assigns, AssignLoc{Expr: e})
 					}
-					cur.Assigns = append(cur.Assigns, AssignLoc{Expr: e})
 					if !lx.accept(",") {
 						break
 					}
@@ -1074,12 +1126,18 @@ func parseSpecLines(path string, lines []string, lineNos []int) (*SpecFile, erro
 			cur.Trusted = true
 		case "fresh":
 			lx.next()
-			for {
-				cur.Fresh = append(cur.Fresh, lx.next().val)
-				if !lx.accept(",") {
-					break
+			ftags := p.parseTags()
+			fsp := FreshSpec{Name: lx.next().val, Tags: ftags}
+			if lx.isID("when") {
+				lx.next()
+				if fsp.When, err = p.parseExpr(0); err != nil {
+					return nil, err
 				}
 			}
+			cur.Fresh = append(cur.Fresh, fsp)
+		case "iterator":
+			lx.next()
+			cur.Iterator = true
 		case "note":
 			lx.next()
 			var ws []string
